@@ -112,6 +112,8 @@ SInit(init) ==
     [] init = "list" -> DList(<<>>)   [] init = "tuple" -> DTuple(<<>>)
     [] init = "dict" -> DDict(<<>>)   [] init = "odict" -> DODict(<<>>)
     [] init = "seeded" -> DList(<<VInt(0)>>)                                    \* lambda: [0]
+    [] init = "strx" -> VStr("x")                                               \* lambda: 'x'
+    [] init = "tup0" -> DTuple(<<VInt(0)>>)                                     \* lambda: (0,)
     [] init = "lazy" -> DList(<<>>)
 
 \* functools.reduce(op, elems, acc)
@@ -230,7 +232,8 @@ HOp(h, op, a, b) ==
 
 \* init(): scalars, or a freshly allocated container
 HInit(h, init) ==
-  CASE init \in {"int", "float", "half", "five", "str"} -> [h |-> h, v |-> SInit(init)]
+  CASE init \in {"int", "float", "half", "five", "str", "strx"} -> [h |-> h, v |-> SInit(init)]
+    [] init = "tup0" -> [h |-> Append(h, Cell("tuple", <<VInt(0)>>)), v |-> VRef(NewAddr(h))]
     [] init \in {"list", "lazy"} -> [h |-> Append(h, Cell("list", <<>>)), v |-> VRef(NewAddr(h))]
     [] init = "seeded" -> [h |-> Append(h, Cell("list", <<VInt(0)>>)), v |-> VRef(NewAddr(h))]
     [] init \in {"tuple", "dict", "odict"} -> [h |-> Append(h, Cell(init, <<>>)), v |-> VRef(NewAddr(h))]
